@@ -748,9 +748,9 @@ func (r *replica) ctxNow() sdk.Context {
 	// differently assembled header would give the off-chain side other sessions than claim validation regenerates)
 	if r.bs.LoadBlockMeta(r.height) != nil {
 		if ctx, err := r.app.NewContext(r.height); err == nil {
-			if c, ok := ctx.(sdk.Context); ok {
-				return c.WithLogger(bufLogger{r.logbuf}).WithAppVersion(app.AppVersion)
-			}
+			// same header; the multistore stays the application's own (the lazily loaded version view has no
+			// transient stores, which evaluators that write parameters on a cache branch need)
+			return sdk.NewContext(r.app.Store(), ctx.BlockHeader(), false, bufLogger{r.logbuf}).WithBlockStore(r.bs).WithAppVersion(app.AppVersion)
 		}
 	}
 	hdr := abci.Header{ChainID: chainID, Height: r.height, Time: r.time}
